@@ -6,6 +6,8 @@ package node
 // every credited address has a record and is indexed in the lookup table (C17, payout records of C14/C15).
 
 import (
+	"encoding/hex"
+	"fmt"
 	"math/rand"
 	"testing"
 	"time"
@@ -129,4 +131,58 @@ func TestConf_CoinbaseHistoryMatchesLedger(t *testing.T) {
 		done()
 	}
 	t.Logf("CONF-STATS evaluations=%d (seeded trials, two payout kinds each)", trials)
+}
+
+// The staking payout records are a function of the payout set: the record of payout "<rank>-<txid>" is stored under tx_index
+// <rank>, for the address and the amount of that payout -- whatever order the payout map is walked in (C01; C17 reads by index).
+// Bounds: 2..12 payouts, distinct amounts, confTrials/3 seeded trials, each on a fresh history.
+func TestConf_StakingCoinbaseRecordIndex(t *testing.T) {
+	r := rand.New(rand.NewSource(32))
+	d, done := vfNewNode(t)
+	defer done()
+	trials := confTrials / 3
+	for trial := 0; trial < trials; trial++ {
+		tx := confBegin(t, d)
+		n := 2 + r.Intn(11)
+		txid := fmt.Sprintf("%064d", 300000+trial)
+		payouts := map[string]uint64{}
+		addrs := map[string]factom.FAAddress{}
+		for i := 0; i < n; i++ {
+			k := fmt.Sprintf("%d-%s", i, txid)
+			payouts[k] = uint64(1000 + 17*i + r.Intn(7))
+			var a factom.FAAddress
+			a[0], a[1], a[2] = 0xc1, byte(trial), byte(i)
+			addrs[k] = a
+		}
+		if err := d.Pegnet.InsertStakingCoinbase(tx, txid, uint32(300000+trial), time.Unix(1600000000, 0), payouts, addrs); err != nil {
+			t.Fatalf("CONF leaf=InsertStakingCoinbase clause=healthy_means_nil: %v", err)
+		}
+		hash, _ := hex.DecodeString(txid)
+		rows, err := tx.Query(`SELECT tx_index, from_address, to_amount FROM pn_history_transaction WHERE entry_hash = ?`, hash)
+		if err != nil {
+			t.Fatal(err)
+		}
+		seen := 0
+		for rows.Next() {
+			var idx int
+			var ab []byte
+			var amt uint64
+			if err := rows.Scan(&idx, &ab, &amt); err != nil {
+				t.Fatal(err)
+			}
+			seen++
+			k := fmt.Sprintf("%d-%s", idx, txid)
+			want, ok := addrs[k]
+			if !ok || string(ab) != string(want[:]) || amt != payouts[k] {
+				rows.Close()
+				t.Fatalf("CONF leaf=InsertStakingCoinbase clause=record_of_payout_rank_k_is_stored_under_tx_index_k trial=%d payouts=%d: tx_index %d holds address %x amount %d, payout %q is address %x amount %d", trial, n, idx, ab[:3], amt, k, want[:3], payouts[k])
+			}
+		}
+		rows.Close()
+		if seen != n {
+			t.Fatalf("CONF leaf=InsertStakingCoinbase clause=one_record_per_payout: %d records for %d payouts", seen, n)
+		}
+		tx.Rollback()
+	}
+	t.Logf("CONF-STATS evaluations=%d (seeded trials)", trials)
 }
